@@ -707,13 +707,13 @@ pub fn property() -> Property {
                offered (it was lowered after first being set). Distinct = distinct canonical JSON of the case",
         assumptions: vec![
             "neighbourhood N(i) = { j : d(i,j) < tolerance }, the point itself included; core = |N(i)| >= min_points (strict, as LinearSearch/BallTree)".into(),
-            "tie class (tolerance bit-equal to an inter-point distance): a run is accepted if it satisfies the predicates under '<' or under '<=', one convention for the whole run; generated only on coordinates k/256, |x| <= 128, where all L1/Linf and squared-L2 distances are exact in f64".into(),
+            "tie class (tolerance bit-equal to an inter-point distance): generated only on coordinates k/256, |x| <= 128, where all L1/Linf and squared-L2 distances are exact in f64. Each index is asked (its own within_range, the queries DBSCAN/OPTICS make) which convention it applies to the pairs at exactly the tolerance: if its answers are the '<' relation or the '<=' relation the run is judged under that convention; if they are in between (some such pairs yes, others no) that is reported as tie:mixed-neighbourhood-convention and the run is not judged further; if the probe tells nothing the run is accepted when it satisfies the predicates under '<' or under '<='".into(),
             format!("cases whose tolerance is within relative {:e} of a pairwise distance it is not bit-equal to are not judged (counted as skipped 'ambiguous_tolerance'); the generator keeps a relative gap >= 5e-8", oracle::AMBIGUOUS_BAND),
             format!("core and reachability distances are compared with the harness' own distance formula with relative tolerance 64*eps = {:e}", oracle::DIST_REL_TOL),
             "reachability is checked against the core distances linfa reports (each of which is checked against the definition separately), so one wrong core distance is reported once".into(),
             "a reachability that is None is always accepted (the statement says 'either undefined or ...'); o may be the sample itself (listed 'no later')".into(),
             "zero features: DBSCAN all-noise or the definitional labelling, OPTICS all-undefined or the definitional analysis are both accepted; no panic".into(),
-            "index independence: DBSCAN label vectors identical for the three indices (all classes); OPTICS (index, core, reachability) sequences bit-identical in the generic class only; the LinearSearch listing is compared only when its core distances are the definitional ones".into(),
+            "index independence: DBSCAN label vectors identical for the three indices (all classes; in the tie class a difference between indices probed to apply different conventions has its own signature dbscan:index-dependence:tie-convention); OPTICS (index, core, reachability) sequences bit-identical in the generic class, and in the tie class between indices probed to apply the same convention; the LinearSearch listing is compared only when its core distances are the definitional ones and bit-equal to the other index' (a one-ulp different pick among rounding-level ties may re-order exact ties)".into(),
             "tolerance <= 0, min_points < 2, non-finite coordinates and non-contiguous views are documented preconditions and are not generated".into(),
         ],
         subs: vec![
